@@ -419,7 +419,9 @@ func (w *world) CheckTerminal() ([]string, string) {
 	if w.d.wantOut != "" {
 		if w.err2 != "nil" {
 			out = append(out, "the object is not reusable after cancellation: second RunContext returned "+w.err2)
-		} else if w.out != w.d.wantOut {
+		} else if w.out != w.d.wantOut && !(w.contender && w.d.infinite) {
+			// (with a contending caller on a multi-statement script the contender's own run - possibly cancelled half
+			// way - may be the last one to touch `out`: only "the second run succeeds" is claimed there)
 			out = append(out, "second run on the same object gave out="+w.out+", expected "+w.d.wantOut)
 		}
 	} else if !strings.HasPrefix(w.err2, "error:") {
